@@ -340,6 +340,13 @@ pub fn run_item(tier: Tier, item: usize) -> ItemResult {
 }
 
 pub fn run(ctx: &Ctx) -> Coverage {
+    let mut cov = Coverage::aggregate();
+    cov.absorb("a-h1-h1", run_a(ctx));
+    cov.absorb("b-http2-pairs", super::c02b::run(ctx));
+    cov
+}
+
+fn run_a(ctx: &Ctx) -> Coverage {
     let tier = ctx.tier();
     let n = cases(tier).len();
     let results = explore::run_sharded(ctx, n, "c02", |i| run_item(tier, i));
@@ -347,6 +354,9 @@ pub fn run(ctx: &Ctx) -> Coverage {
 }
 
 pub fn replay(ctx: &Ctx, case: &Value) -> Coverage {
+    if case["sim"] == "c02b" {
+        return super::c02b::replay(ctx, case);
+    }
     let c: Case = serde_json::from_value(case["case"].clone()).unwrap_or_else(|e| crate::common::machinery_error(&format!("bad replay case: {e}")));
     let choices: Vec<u32> = serde_json::from_value(case["choices"].clone()).unwrap_or_default();
     let tier = ctx.tier();
